@@ -49,6 +49,7 @@ type fakeHQ struct {
 	attempts int
 	seen     map[string]bool // values the HQ reports as already seen
 	seenLog  [][]gocrawlhq.URL
+	record   bool // a seencheck records the values it answers as new
 }
 
 func (f *fakeHQ) ServeHTTP(w http.ResponseWriter, r *http.Request) {
@@ -107,6 +108,9 @@ func (f *fakeHQ) ServeHTTP(w http.ResponseWriter, r *http.Request) {
 		for _, u := range in {
 			if !f.seen[u.Value] {
 				out = append(out, u)
+				if f.record {
+					f.seen[u.Value] = true
+				}
 			}
 		}
 		if len(out) == 0 {
